@@ -45,11 +45,12 @@ def Reader.next (r : Reader) : Option Reader :=
   | [] => none
   | x :: xs => some { r with curr := tag r.chunk x, rest := xs }
 
-/-- hintmerge.go:99-116: open every source and read its first item.  An EMPTY source makes `next()` return
-    `nil, nil` and the next line `hp[i].curr.Pos.ChunkID = …` dereferences nil: panic (= `none`). -/
+/-- hintmerge.go (merge, the opening loop): open every source and read its first item; a source WITHOUT items offers
+    nothing and does not enter the queue (since /repo "fix: a hint file without items made the merge panic"; before it
+    `hp[i].curr.Pos.ChunkID = …` dereferenced nil).  The result type is kept: `none` = a Go panic, which no longer occurs. -/
 def openAll : List (Nat × List Item) → Option (List Reader)
   | [] => some []
-  | (_, []) :: _ => none
+  | (_, []) :: ss => openAll ss
   | (c, x :: xs) :: ss =>
     match openAll ss with
     | none => none
